@@ -114,15 +114,18 @@ Definition Inv_index (s : state) : Prop :=
 Definition tx_op (o : op) : bool :=
   match o with
   | TRegEntity _ _ _ _ | TDeregEntity _ | TRegNode _ _ _ _ | TEpoch _
-  | TRegRuntime _ _ | LSuspendRt _ => true
+  | TRegRuntime _ _ | LSuspendRt _ | TUnfreeze _ _ | LFreeze _ _ => true
   | LSetEntity _ | LSetNode _ | LRemoveNode _ | LSetRtOwner _ _ | LRemoveRtOwner _ _ => false
   end.
 
 (* everything except the two runtime tables / except everything runtime related *)
 Definition core (s : state) :=
-  (s_ents s, s_nodes s, s_byent s, s_addr s, s_keymap s, s_rtown s, s_claims s, s_epoch s, s_rtclaims s, s_nthr s).
+  (s_ents s, s_nodes s, s_byent s, s_addr s, s_keymap s, s_rtown s, s_claims s, s_epoch s, s_rtclaims s, s_nthr s, s_status s).
 Definition ncore (s : state) :=
-  (s_ents s, s_nodes s, s_byent s, s_addr s, s_keymap s, s_claims s, s_epoch s, s_nthr s).
+  (s_ents s, s_nodes s, s_byent s, s_addr s, s_keymap s, s_claims s, s_epoch s, s_nthr s, s_status s).
+(* everything except the status table *)
+Definition xcore (s : state) :=
+  (s_ents s, s_nodes s, s_byent s, s_addr s, s_keymap s, s_rtown s, s_claims s, s_rtclaims s, s_nthr s, s_rts s, s_susp s).
 
 Lemma resume_one_core s r : core (resume_one s r) = core s.
 Proof. unfold resume_one. destruct (aget r (s_susp s)); reflexivity. Qed.
@@ -140,11 +143,29 @@ Qed.
 Ltac use_core l s :=
   let H := fresh "HC" in
   pose proof (resume_fold_core l s) as H; unfold core in H;
-  injection H as ?HCents ?HCnodes ?HCbyent ?HCaddr ?HCkeymap ?HCrtown ?HCclaims ?HCepoch ?HCrtclaims ?HCnthr.
+  injection H as ?HCents ?HCnodes ?HCbyent ?HCaddr ?HCkeymap ?HCrtown ?HCclaims ?HCepoch ?HCrtclaims ?HCnthr ?HCstatus.
+Lemma mark_one_xcore e s id : xcore (mark_one e s id) = xcore s.
+Proof.
+  unfold mark_one. destruct (aget id (s_nodes s)) as [n|]; [|reflexivity].
+  destruct (aget id (s_status s)); [|reflexivity]. destruct (n_exp n <? e); reflexivity.
+Qed.
+Lemma mark_fold_xcore e l : forall s, xcore (fold_left (mark_one e) l s) = xcore s.
+Proof.
+  induction l as [|r l IH]; intros s; [reflexivity|]. cbn [fold_left]. rewrite IH. apply mark_one_xcore.
+Qed.
+Ltac use_mark e l s :=
+  let H := fresh "HM" in
+  pose proof (mark_fold_xcore e l s) as H; unfold xcore in H;
+  injection H as ?HMents ?HMnodes ?HMbyent ?HMaddr ?HMkeymap ?HMrtown ?HMclaims ?HMrtclaims ?HMnthr ?HMrts ?HMsusp.
+(* the two status operations leave everything but the status table alone *)
+Ltac status_ops H :=
+  first [ match goal with |- context [unfreeze_check ?s ?t ?i] =>
+            destruct (unfreeze_check s t i); try exact H; destruct (aget i (s_status s)); exact H end
+        | match goal with |- context [aget ?i (s_status ?s)] => destruct (aget i (s_status s)); exact H end ].
 Ltac use_ncore s rt :=
   let H := fresh "HN" in
   pose proof (rt_apply_ncore s rt) as H; unfold ncore in H;
-  injection H as ?HNents ?HNnodes ?HNbyent ?HNaddr ?HNkeymap ?HNclaims ?HNepoch ?HNnthr.
+  injection H as ?HNents ?HNnodes ?HNbyent ?HNaddr ?HNkeymap ?HNclaims ?HNepoch ?HNnthr ?HNstatus.
 
 Definition no_exchange (s : state) (o : op) : Prop :=
   match o with
@@ -204,10 +225,24 @@ Proof.
   apply verify_args_ok in EV as (Hok & Hmem & Hs & Hd & Hdup & _ & _ & _).
   if_ok H. apply negb_false_iff in E. apply N.eqb_eq in E. apply N.leb_gt in E1.
   repeat split; eauto.
-  - rewrite H0 in H. unfold verify_node_update in H. if_ok H.
+  - rewrite H0 in H. destruct (verify_node_update (s_epoch s) cur n) eqn:EU; try discriminate.
+    unfold verify_node_update in EU. if_ok EU.
     apply negb_false_iff in E3. apply N.eqb_eq in E3. exact E3.
-  - rewrite H0 in H. unfold verify_node_update in H. if_ok H.
+  - rewrite H0 in H. destruct (verify_node_update (s_epoch s) cur n) eqn:EU; try discriminate.
+    unfold verify_node_update in EU. if_ok EU.
     apply negb_false_iff in E4. apply N.eqb_eq in E4. exact E4.
+Qed.
+
+(* an accepted registration of an existing node found its status record *)
+Lemma reg_node_ok_status maxexp s txs n signers ok cur :
+  reg_node_check maxexp s txs n signers ok = COk -> aget (n_id n) (s_nodes s) = Some cur ->
+  exists st, aget (n_id n) (s_status s) = Some st.
+Proof.
+  unfold reg_node_check. intros H Hcur.
+  destruct (aget (n_ent n) (s_ents s)) as [ent|]; [|discriminate].
+  destruct (verify_register_node_args maxexp s ent n signers ok); try discriminate.
+  if_ok H. rewrite Hcur in H. destruct (verify_node_update (s_epoch s) cur n); try discriminate.
+  destruct (aget (n_id n) (s_status s)) as [st|]; [eauto|discriminate].
 Qed.
 
 (* the runtime-related conditions of an accepted node registration *)
@@ -226,7 +261,9 @@ Proof.
   if_ok H. apply negb_false_iff in E0.
   assert (Hc : forall c, code_is_ok c = true -> c = COk) by (intros c; destruct c; cbn; congruence).
   split; [apply Hc; exact Hrts|]. split; [apply Hc; exact E0|]. split; [exact Hro|].
-  intros cur Hcur Hact. rewrite Hcur in H. unfold verify_node_update in H. if_ok H.
+  intros cur Hcur Hact. rewrite Hcur in H.
+  destruct (verify_node_update (s_epoch s) cur n) eqn:EU; try discriminate. clear H. rename EU into H.
+  unfold verify_node_update in H. if_ok H.
   assert (Hexp : (n_exp cur <? s_epoch s) = false) by (apply N.ltb_ge; exact Hact).
   rewrite Hexp in H. if_ok H.
   apply negb_false_iff in E5, E6. split.
@@ -267,7 +304,7 @@ Section Reg.
     Inv_index s -> aget id (s_nodes s) = Some n -> Inv_index (remove_node addr n s).
   Proof.
     intros (Hids & Hkm & Hbe) Hn. pose proof (Hids _ _ Hn) as Hid.
-    unfold Inv_index, remove_node; cbn [s_nodes s_keymap s_byent with_nodes with_byent with_addr with_keymap].
+    unfold Inv_index, remove_node; cbn [s_nodes s_keymap s_byent with_nodes with_byent with_addr with_keymap with_status].
     rewrite Hid. split; [apply ids_del; exact Hids|]. split.
     - apply km_remove; auto.
     - rewrite <- Hid at 2. apply be_remove; auto.
@@ -279,6 +316,10 @@ Section Reg.
   Proof. intros H. exact H. Qed.
   Lemma inv_with_nthr s t : Inv_index s -> Inv_index (with_nthr s t).
   Proof. intros H. exact H. Qed.
+  Lemma inv_with_status s t : Inv_index s -> Inv_index (with_status s t).
+  Proof. intros H. exact H. Qed.
+  Lemma inv_index_mark e l s : Inv_index s -> Inv_index (fold_left (mark_one e) l s).
+  Proof. intros H. use_mark e l s. unfold Inv_index. rewrite HMnodes, HMkeymap, HMbyent. exact H. Qed.
   Lemma inv_index_resume l s : Inv_index s -> Inv_index (fold_left resume_one l s).
   Proof. intros H. use_core l s. unfold Inv_index. rewrite HCnodes, HCkeymap, HCbyent. exact H. Qed.
   Lemma inv_index_rt_apply s rt : Inv_index s -> Inv_index (reg_runtime_apply s rt).
@@ -305,12 +346,14 @@ Section Reg.
     - destruct (dereg_entity_check s txs); exact Hinv.
     - destruct (reg_node_check maxexp s txs n dsigners sig_ok) eqn:EC; try exact Hinv.
       apply reg_node_ok in EC as (_ & _ & _ & _ & Hd & Hdup & Hcur & _).
-      cbn [snd]. apply inv_index_resume, inv_with_nthr. apply set_node_inv; auto.
+      cbn [snd]. apply inv_index_resume, inv_with_status, inv_with_nthr. apply set_node_inv; auto.
       intros cur Hc. apply Hcur. exact Hc.
-    - cbn [snd]. unfold epoch_change. apply epoch_fold_inv. exact Hinv.
+    - cbn [snd]. unfold epoch_change. apply epoch_fold_inv, inv_index_mark. exact Hinv.
     - destruct (reg_runtime_check s caller rt); try exact Hinv.
       cbn [snd]. apply inv_index_rt_apply. exact Hinv.
     - destruct (aget r (s_rts s)); exact Hinv.
+    - status_ops Hinv.
+    - status_ops Hinv.
   Qed.
 
   Fixpoint no_exchange_run (ops : list op) (s : state) : Prop :=
@@ -439,6 +482,9 @@ Section Auth.
     - destruct (reg_node_check maxexp s txs n dsigners sig_ok); injection H as <- <-; congruence.
     - destruct (reg_runtime_check s caller rt); injection H as <- <-; congruence.
     - destruct (aget r (s_rts s)); injection H as <- <-; congruence.
+    - destruct (unfreeze_check s txs id); try (injection H as <- <-; congruence).
+      destruct (aget id (s_status s)); injection H as <- <-; congruence.
+    - destruct (aget id (s_status s)); injection H as <- <-; congruence.
   Qed.
 
   Lemma missing_signature_rejected s txs n signers ok k :
@@ -492,7 +538,7 @@ Section Auth.
                                exists n, aget id (s_nodes s) = Some n /\ n_exp n + debond < e)).
     { unfold epoch_one. destruct (aget id0 (s_nodes s)) as [n|] eqn:En; [|split; [exact Hids|auto]].
       destruct ((n_exp n <? e) && (n_exp n + debond <? e)) eqn:Ec; [|split; [exact Hids|auto]].
-      cbn [s_nodes with_nthr with_claims remove_node with_nodes with_byent with_addr with_keymap].
+      cbn [s_nodes with_status with_nthr with_claims remove_node with_nodes with_byent with_addr with_keymap].
       split; [apply ids_del; exact Hids|]. intros id. rewrite aget_adel_gen.
       pose proof (Hids _ _ En) as Hid. rewrite Hid.
       destruct (N.eqb_spec id0 id) as [<-|Hne]; [|left; reflexivity].
@@ -514,11 +560,14 @@ Section Auth.
     - destruct (reg_node_check maxexp s txs n dsigners sig_ok); try exact H.
       cbn [snd]. match goal with |- IDS (s_nodes (fold_left resume_one ?l ?s0)) => use_core l s0 end.
       rewrite HCnodes.
-      cbn [set_node s_nodes with_nthr with_claims with_nodes with_byent with_addr with_keymap]. apply ids_set. exact H.
-    - cbn [snd]. unfold epoch_change. apply epoch_fold_nodes. exact H.
+      cbn [set_node s_nodes with_status with_nthr with_claims with_nodes with_byent with_addr with_keymap]. apply ids_set. exact H.
+    - cbn [snd]. unfold epoch_change. apply epoch_fold_nodes.
+      use_mark e (sorted_ids s) (with_epoch s e). rewrite HMnodes. exact H.
     - destruct (reg_runtime_check s caller rt); try exact H.
       cbn [snd]. use_ncore s rt. rewrite HNnodes. exact H.
     - destruct (aget r (s_rts s)); exact H.
+    - status_ops H.
+    - status_ops H.
   Qed.
 
   Lemma authority_node s o s' id :
@@ -540,7 +589,7 @@ Section Auth.
       injection H as <-.
       match goal with |- context [fold_left resume_one ?l ?s0] => use_core l s0 end.
       rewrite HCnodes in Hch |- *.
-      cbn [set_node s_nodes with_nthr with_claims with_nodes with_byent with_addr with_keymap] in Hch |- *.
+      cbn [set_node s_nodes with_status with_nthr with_claims with_nodes with_byent with_addr with_keymap] in Hch |- *.
       rewrite aget_aset_gen in Hch |- *.
       destruct (N.eqb_spec (n_id n) id) as [E|Hne]; [|exfalso; apply Hch; reflexivity].
       apply reg_node_ok in EC as ((ent & He & Hm) & Hok & Ht & Hs & _ & _ & Hcur & _).
@@ -550,12 +599,19 @@ Section Auth.
       + apply Hcur. exact H.
       + apply Hcur. exact H.
     - injection H as <-. unfold epoch_change in Hch |- *.
-      destruct (epoch_fold_nodes e (sorted_ids s) (with_epoch s e) Hids) as [_ Hn].
-      destruct (Hn id) as [A|[A [n [B C]]]]; [exfalso; apply Hch; exact A|].
-      right. exists e, n. auto.
+      use_mark e (sorted_ids s) (with_epoch s e).
+      assert (Hids' : IDS (s_nodes (fold_left (mark_one e) (sorted_ids s) (with_epoch s e))))
+        by (rewrite HMnodes; exact Hids).
+      destruct (epoch_fold_nodes e (sorted_ids s) _ Hids') as [_ Hn].
+      destruct (Hn id) as [A|[A [n [B C]]]].
+      + exfalso. apply Hch. rewrite A, HMnodes. reflexivity.
+      + right. exists e, n. rewrite HMnodes in B. auto.
     - destruct (reg_runtime_check s caller rt); try discriminate. injection H as <-.
       exfalso. apply Hch. use_ncore s rt. rewrite HNnodes. reflexivity.
     - destruct (aget r (s_rts s)); try discriminate. injection H as <-. exfalso. apply Hch. reflexivity.
+    - destruct (unfreeze_check s txs id0); try discriminate.
+      destruct (aget id0 (s_status s)); injection H as <-; exfalso; apply Hch; reflexivity.
+    - destruct (aget id0 (s_status s)); try discriminate. injection H as <-. exfalso. apply Hch. reflexivity.
   Qed.
 
   Lemma authority_entity s o s' e :
@@ -582,10 +638,14 @@ Section Auth.
       injection H as <-. exfalso. apply Hch.
       match goal with |- context [fold_left resume_one ?l ?s0] => use_core l s0 end.
       rewrite HCents. reflexivity.
-    - injection H as <-. exfalso. apply Hch. unfold epoch_change. rewrite epoch_fold_ents. reflexivity.
+    - injection H as <-. exfalso. apply Hch. unfold epoch_change. rewrite epoch_fold_ents.
+      use_mark e0 (sorted_ids s) (with_epoch s e0). rewrite HMents. reflexivity.
     - destruct (reg_runtime_check s caller rt); try discriminate. injection H as <-.
       exfalso. apply Hch. use_ncore s rt. rewrite HNents. reflexivity.
     - destruct (aget r (s_rts s)); try discriminate. injection H as <-. exfalso. apply Hch. reflexivity.
+    - destruct (unfreeze_check s txs id); try discriminate.
+      destruct (aget id (s_status s)); injection H as <-; exfalso; apply Hch; reflexivity.
+    - destruct (aget id (s_status s)); try discriminate. injection H as <-. exfalso. apply Hch. reflexivity.
   Qed.
 
   (* ---------- an entity cannot be removed while it owns nodes or runtimes ---------- *)
@@ -715,7 +775,7 @@ Section RegAll.
     destruct ((n_exp n <? e) && (n_exp n + debond <? e)); [|exact H].
     destruct H as (Hids & Hbe & Hnc & Hec). pose proof (Hids _ _ En) as Hid.
     unfold Inv_reg, remove_node;
-      cbn [s_nodes s_byent s_claims s_ents with_nodes with_byent with_addr with_keymap with_claims with_nthr].
+      cbn [s_nodes s_byent s_claims s_ents with_nodes with_byent with_addr with_keymap with_claims with_status with_nthr].
     replace (adel (n_id n) (s_nodes s)) with (adel id (s_nodes s)) by (rewrite Hid; reflexivity).
     split; [|split; [|split]].
     - apply ids_del. exact Hids.
@@ -749,16 +809,19 @@ Section RegAll.
       destruct Hinv as (Hids & Hbe & Hnc & Hec).
       cbn [snd]. match goal with |- Inv_reg (fold_left resume_one ?l ?s0) => use_core l s0 end.
       unfold Inv_reg. rewrite HCnodes, HCbyent, HCclaims, HCents. unfold set_node;
-        cbn [s_nodes s_byent s_claims s_ents with_nodes with_byent with_addr with_keymap with_claims with_nthr].
+        cbn [s_nodes s_byent s_claims s_ents with_nodes with_byent with_addr with_keymap with_claims with_status with_nthr].
       split; [|split; [|split]].
       + apply ids_set. exact Hids.
       + apply (pf_set (fun x => x)); auto. intros old Ho. apply Hcur. exact Ho.
       + apply (pf_set (fun x => x + 1)); auto; [exact succ_inj|]. intros old Ho. apply Hcur. exact Ho.
       + apply ec_other_add; [lia|exact Hec].
-    - cbn [snd]. unfold epoch_change. apply epoch_fold_reg. exact Hinv.
+    - cbn [snd]. unfold epoch_change. apply epoch_fold_reg.
+      use_mark e (sorted_ids s) (with_epoch s e). unfold Inv_reg. rewrite HMnodes, HMbyent, HMclaims, HMents. exact Hinv.
     - destruct (reg_runtime_check s caller rt); try exact Hinv.
       cbn [snd]. use_ncore s rt. unfold Inv_reg. rewrite HNnodes, HNbyent, HNclaims, HNents. exact Hinv.
     - destruct (aget r (s_rts s)); exact Hinv.
+    - status_ops Hinv.
+    - status_ops Hinv.
   Qed.
 
   Lemma run_reg ops : forall s, Inv_reg s -> forallb tx_op ops = true ->
@@ -822,16 +885,22 @@ Section RegAll.
       cbn [snd] in Hn'.
       match type of Hn' with context [fold_left resume_one ?l ?s0] => use_core l s0 end.
       rewrite HCnodes in Hn'.
-      cbn [set_node s_nodes with_nthr with_claims with_nodes with_byent with_addr with_keymap] in Hn'.
+      cbn [set_node s_nodes with_status with_nthr with_claims with_nodes with_byent with_addr with_keymap] in Hn'.
       split_in Hn' (n_id n0) id; [|congruence].
       injection Hn' as <-. apply reg_node_ok in EC as (_ & _ & _ & _ & _ & _ & Hcur & _).
       symmetry. apply Hcur. rewrite E. exact Hn.
     - cbn [snd] in Hn'. unfold epoch_change in Hn'.
-      destruct (epoch_fold_nodes addr debond e (sorted_ids s) (with_epoch s e) Hids) as [_ H].
-      destruct (H id) as [A|[A _]]; rewrite A in Hn'; [cbn in Hn'; congruence|discriminate].
+      use_mark e (sorted_ids s) (with_epoch s e).
+      assert (Hids' : IDS (s_nodes (fold_left (mark_one e) (sorted_ids s) (with_epoch s e))))
+        by (rewrite HMnodes; exact Hids).
+      destruct (epoch_fold_nodes addr debond e (sorted_ids s) _ Hids') as [_ H].
+      destruct (H id) as [A|[A _]]; rewrite A in Hn'; [rewrite HMnodes in Hn'; cbn in Hn'; congruence|discriminate].
     - destruct (reg_runtime_check s caller rt); cbn [snd] in Hn'; try congruence.
       use_ncore s rt. rewrite HNnodes in Hn'. congruence.
     - destruct (aget r (s_rts s)); cbn in Hn'; congruence.
+    - destruct (unfreeze_check s txs id0); cbn [snd] in Hn'; try congruence.
+      destruct (aget id0 (s_status s)); cbn in Hn'; congruence.
+    - destruct (aget id0 (s_status s)); cbn in Hn'; congruence.
   Qed.
 
   (* the record of [id] exists after every operation of the history *)
